@@ -17,7 +17,8 @@
 //!                      evenly spread) cancelling at k
 //!
 //! Result line (canonical, compared with the Lean model with 1e-6 slack on progress values):
-//!   -     : `<res> n=<reports> seq=<f32 bits,...>`            when the sequence is schedule independent
+//!   -     : `<res> n=<reports> late=<bytes written after the first 1.0 report> seq=<f32 bits,...>`
+//!           when the sequence is schedule independent
 //!           `<res> n=<reports> last=<v> dif=<sorted successive differences of 0,r0,r1,.. as f32 bits>`
 //!           otherwise (the multiset of increments does not depend on the completion order: the
 //!           multi-fragment levels are a prefix of the levels and each ends with its range's end)
@@ -140,10 +141,14 @@ pub struct Outcome {
     pub written: usize,
     pub forced: usize,
     pub timeouts: usize,
+    /// bytes written by the call after its first report of 1.0 (0 = 100 % only after the write-out)
+    pub late: usize,
 }
 
 struct Shared {
     reports: Mutex<Vec<f32>>,
+    /// bytes counted when the first 1.0 report arrived
+    at100: Mutex<Option<usize>>,
 }
 
 /// sizes of the surfaces one call encodes (level 0 and, with generated mipmaps, all further levels)
@@ -199,7 +204,7 @@ pub fn execute(c: &Case, data: &[u8], pre_cancel: bool, cancel_at: Option<usize>
     use std::sync::atomic::Ordering::SeqCst;
     let image = ImageView::new(data, Size::new(c.w, c.h), c.color).expect("image");
     let token = CancellationToken::new();
-    let shared = Arc::new(Shared { reports: Mutex::new(vec![]) });
+    let shared = Arc::new(Shared { reports: Mutex::new(vec![]), at100: Mutex::new(None) });
     let lens: Vec<usize> = if c.opts.parallel {
         level_fragments(c).iter().map(|f| f.len()).filter(|&n| n > 1).collect()
     } else {
@@ -208,10 +213,18 @@ pub fn execute(c: &Case, data: &[u8], pre_cancel: bool, cancel_at: Option<usize>
     let strict = c.mt && cancel_at.is_none() && !pre_cancel;
     let sched = Sched::new(&lens, c.threads, c.order, c.seed, strict);
 
+    let count = Arc::new(std::sync::atomic::AtomicUsize::new(0));
     let tok2 = token.clone();
     let sh2 = shared.clone();
     let sc2 = sched.clone();
+    let cnt2 = count.clone();
     let mut record = move |p: f32| {
+        if p == 1.0 {
+            let mut a = sh2.at100.lock().unwrap_or_else(|e| e.into_inner());
+            if a.is_none() {
+                *a = Some(cnt2.load(SeqCst));
+            }
+        }
         let idx = {
             let mut g = sh2.reports.lock().unwrap_or_else(|e| e.into_inner());
             g.push(p);
@@ -225,8 +238,10 @@ pub fn execute(c: &Case, data: &[u8], pre_cancel: bool, cancel_at: Option<usize>
     };
     let take = |shared: &Arc<Shared>| std::mem::take(&mut *shared.reports.lock().unwrap_or_else(|e| e.into_inner()));
 
-    let count = Arc::new(std::sync::atomic::AtomicUsize::new(0));
     let mut writer = CountW(count.clone());
+    let late = |shared: &Arc<Shared>, now: usize| {
+        shared.at100.lock().unwrap_or_else(|e| e.into_inner()).take().map(|a| now - a).unwrap_or(0)
+    };
     if pre_cancel {
         token.cancel();
     }
@@ -234,7 +249,7 @@ pub fn execute(c: &Case, data: &[u8], pre_cancel: bool, cancel_at: Option<usize>
     if c.api_encoder {
         let mut encoder = match Encoder::new_image(&mut writer, Size::new(c.w, c.h), c.format, c.mips) {
             Ok(e) => e,
-            Err(e) => return vec![Outcome { result: Err(e), reports: vec![], written: 0, forced: 0, timeouts: 0 }],
+            Err(e) => return vec![Outcome { result: Err(e), reports: vec![], written: 0, forced: 0, timeouts: 0, late: 0 }],
         };
         encoder.options = c.opts.clone();
         encoder.mipmaps.generate = c.mips;
@@ -255,7 +270,7 @@ pub fn execute(c: &Case, data: &[u8], pre_cancel: bool, cancel_at: Option<usize>
                 })
             });
             let (forced, timeouts) = sched.stats();
-            out.push(Outcome { result, reports: take(&shared), written: count.load(SeqCst) - before, forced, timeouts });
+            out.push(Outcome { result, reports: take(&shared), written: count.load(SeqCst) - before, forced, timeouts, late: late(&shared, count.load(SeqCst)) });
         }
     } else {
         for attempt in 0..(1 + retry as usize) {
@@ -275,7 +290,7 @@ pub fn execute(c: &Case, data: &[u8], pre_cancel: bool, cancel_at: Option<usize>
                 })
             });
             let (forced, timeouts) = sched.stats();
-            out.push(Outcome { result, reports: take(&shared), written: count.load(SeqCst) - before, forced, timeouts });
+            out.push(Outcome { result, reports: take(&shared), written: count.load(SeqCst) - before, forced, timeouts, late: late(&shared, count.load(SeqCst)) });
         }
     }
     out
@@ -569,14 +584,14 @@ pub fn run(line: &str) -> Option<(String, Vec<String>)> {
             check_sequence("run", &c, &o, false, None, &mut orc);
             let n = o.reports.len();
             let res = if order_free {
-                format!("{} n={n} seq={}", res_name(&o.result), bits(&o.reports))
+                format!("{} n={n} late={} seq={}", res_name(&o.result), o.late, bits(&o.reports))
             } else {
                 let mut with0 = vec![0.0f32];
                 with0.extend_from_slice(&o.reports);
                 let mut d: Vec<f32> = with0.windows(2).map(|w| w[1] - w[0]).collect();
                 d.sort_by(|a, b| a.partial_cmp(b).unwrap_or(std::cmp::Ordering::Equal));
                 let last: Vec<f32> = o.reports.last().copied().into_iter().collect();
-                format!("{} n={n} last={} dif={}", res_name(&o.result), bits(&last), bits(&d))
+                format!("{} n={n} late={} last={} dif={}", res_name(&o.result), o.late, bits(&last), bits(&d))
             };
             Some((res, orc))
         }
